@@ -1,7 +1,253 @@
 package main
 
-import . "verifharness/hlib"
+// Correspondence streams judged by the extracted model (coq/c08/Run.v).
 
-func runFlags(c *Ctx)   {}
-func runPreview(c *Ctx) {}
-func runLR(c *Ctx)      {}
+import (
+	"encoding/json"
+	"fmt"
+	"math"
+	"math/big"
+	"reflect"
+	"sort"
+	"strconv"
+	"strings"
+
+	"github.com/itchyny/gojq"
+	"github.com/itchyny/gojq/cli"
+	. "verifharness/hlib"
+)
+
+// ---- C: parseFlags ----------------------------------------------------------------------------------
+
+func fieldSx(v reflect.Value) string {
+	switch v.Kind() {
+	case reflect.Bool:
+		if v.Bool() {
+			return "(b 1)"
+		}
+		return "(b 0)"
+	case reflect.String:
+		return "(s " + Hexs([]byte(v.String())) + ")"
+	case reflect.Pointer:
+		if v.Type().Elem().Kind() == reflect.Int {
+			if v.IsNil() {
+				return "(i nil)"
+			}
+			return fmt.Sprintf("(i %d)", v.Elem().Int())
+		}
+		return "x"
+	case reflect.Slice:
+		var b strings.Builder
+		b.WriteString("(l")
+		for i := 0; i < v.Len(); i++ {
+			e := v.Index(i)
+			if e.Kind() == reflect.Interface {
+				if e.IsNil() {
+					b.WriteString(" nil")
+					continue
+				}
+				e = e.Elem()
+			}
+			b.WriteString(" " + Hexs([]byte(e.String())))
+		}
+		b.WriteString(")")
+		return b.String()
+	case reflect.Map:
+		keys := []string{}
+		for _, k := range v.MapKeys() {
+			keys = append(keys, k.String())
+		}
+		sort.Strings(keys)
+		var b strings.Builder
+		b.WriteString("(m")
+		for _, k := range keys {
+			b.WriteString(" (" + Hexs([]byte(k)) + " " + Hexs([]byte(v.MapIndex(reflect.ValueOf(k)).String())) + ")")
+		}
+		b.WriteString(")")
+		return b.String()
+	}
+	return "x"
+}
+
+func flagsLine(args []string) (line string, panicked any) {
+	defer func() {
+		if r := recover(); r != nil {
+			panicked = r
+		}
+	}()
+	rest, opts, err := cli.VerifC08ParseFlags(args)
+	if err != nil {
+		return fmt.Sprintf("(flags %s (err %s))", hexList(args), Hexs([]byte(err.Error()))), nil
+	}
+	v := reflect.ValueOf(opts).Elem()
+	fs := make([]string, v.NumField())
+	for i := range fs {
+		fs[i] = fieldSx(v.Field(i))
+	}
+	return fmt.Sprintf("(flags %s (ok %s (%s)))", hexList(args), hexList(rest), strings.Join(fs, " ")), nil
+}
+
+func runFlags(c *Ctx) {
+	g := &gen{r: c.Rng, corpus: loadCorpus()}
+	emit := func(args []string) {
+		line, p := flagsLine(args)
+		if p != nil {
+			c.Violation("(flagspanic %s)", hexList(args))
+			return
+		}
+		c.Emit("%s", line)
+		c.Count("flags")
+	}
+	for _, a := range c.Args {
+		if n, err := parseSx(a); err == nil {
+			if args, err := unhexList(n); err == nil {
+				emit(args)
+			}
+		}
+	}
+	// every corpus command line unchanged
+	for _, cq := range g.corpus {
+		emit(cq.args)
+	}
+	words := append(append([]string{}, cliFlags...), "-L", "-Lx", "-L=x", "-rL", "-rLx", "-rL=x", "-L=", "-nL", "--library-path=x", "--library-path=", "--arg=a", "--args=x", "--jsonargs=--args=z",
+		"--args=--args", "--indent=--", "--indent=-1", "--indent", "+5", "-5", "007", "9223372036854775807", "9223372036854775808", "-9223372036854775808", "1_0", "0x1", " 1", "",
+		"-", "--", "---", "-=", "--=", "-r=", "-r=x", "-rr", "-rnc", "-r-", "-rZ", "-Zr", "-é", "-\xff", "-r\xff", "--\xff", "a", "b", "a=b", "=", "--raw-output=1", "--rawfile", "--slurpfile", "--argjson", "x", "y", "z", "k", "k")
+	for i := 0; i < c.N; i++ {
+		var args []string
+		switch g.r.Intn(3) {
+		case 0:
+			args = append(args, g.corpus[g.r.Intn(len(g.corpus))].args...)
+			for k := g.r.Intn(4); k > 0; k-- {
+				j := g.r.Intn(len(args) + 1)
+				args = append(args[:j:j], append([]string{words[g.r.Intn(len(words))]}, args[j:]...)...)
+			}
+		default:
+			n := g.r.Intn(9)
+			for k := 0; k < n; k++ {
+				w := words[g.r.Intn(len(words))]
+				if g.r.Chance(1, 10) {
+					w = g.mutate(w, words[g.r.Intn(len(words))])
+				}
+				args = append(args, w)
+			}
+		}
+		emit(args)
+	}
+}
+
+// ---- B: LR driver -------------------------------------------------------------------------------------
+
+func runLR(c *Ctx) {
+	g := &gen{r: c.Rng, builtins: loadBuiltins(), corpus: loadCorpus()}
+	emit := func(src string) {
+		if len(src) > 4000 {
+			return
+		}
+		chars, offs := gojq.VerifC08Lex(src)
+		status, err := gojq.VerifC08ParseStatus(src)
+		eo := -1
+		if pe, ok := err.(*gojq.ParseError); ok {
+			eo = pe.Offset
+		}
+		cs := make([]string, 0, len(chars))
+		for _, ch := range chars[:len(chars)-1] {
+			cs = append(cs, strconv.Itoa(ch))
+		}
+		os := make([]string, len(offs))
+		for i, o := range offs {
+			os[i] = strconv.Itoa(o)
+		}
+		c.Emit("(lr (%s) %d %d (%s) %d)", strings.Join(cs, " "), status, eo, strings.Join(os, " "), len(src))
+		c.Count(fmt.Sprintf("lr-status%d", status))
+	}
+	for _, cq := range g.corpus {
+		emit(cq.query)
+	}
+	for i := 0; i < c.N; i++ {
+		switch g.r.Intn(3) {
+		case 0:
+			emit(g.grammarQuery())
+		default:
+			cq := g.corpus[g.r.Intn(len(g.corpus))]
+			emit(g.mutate(cq.query, g.corpus[g.r.Intn(len(g.corpus))].query))
+		}
+	}
+}
+
+// ---- D: Preview / encoder -------------------------------------------------------------------------------
+
+func runPreview(c *Ctx) {
+	g := &gen{r: c.Rng}
+	emitVal := func(v any) {
+		tag := "other"
+		switch v.(type) {
+		case string:
+			tag = "string"
+		case []any:
+			tag = "array"
+		case map[string]any:
+			tag = "object"
+		}
+		isnil := 0
+		if v == nil {
+			isnil = 1
+		}
+		m, _ := gojq.Marshal(v)
+		c.Emit("(preview %s %d %s %s %s %s %s)", tag, isnil, Hexs([]byte(gojq.TypeOf(v))), Hexs(m),
+			Hexs(gojq.VerifC08LimitedMarshal(v, 32)), Hexs([]byte(gojq.Preview(v))), Hexs([]byte(gojq.VerifC08TypeErrorPreview(v))))
+		c.Count("preview-" + tag)
+		if s, ok := v.(string); ok {
+			c.Emit("(encstr %s %s)", Hexs([]byte(s)), Hexs(m))
+			c.Count("encstr")
+		}
+		if f, ok := v.(float64); ok && !math.IsNaN(f) {
+			f = min(max(f, -math.MaxFloat64), math.MaxFloat64)
+			if x := math.Abs(f); x != 0 && x < 1e-6 || x >= 1e21 {
+				c.Emit("(fexp %s %s)", Hexs(strconv.AppendFloat(nil, f, 'e', -1, 64)), Hexs(m))
+				c.Count("fexp")
+			}
+		}
+	}
+	for _, v := range scalarPool {
+		emitVal(v)
+	}
+	pieces := []string{"a", "b", " ", "\"", "\\", "\n", "\x00", "\x1f", "\x7f", "é", "日", "🙂", " ", " ", "�", "\xff", "\xc3", "\xe6\x97", "\xf0\x9f\x99", "\x80", "\xed\xa0\x80", "\xc0\x80", "\xf4\x90\x80\x80", "\xe0\x80\x80", "\t", "<", "~", "\x7e"}
+	for i := 0; i < c.N; i++ {
+		switch g.r.Intn(8) {
+		case 0, 1, 2, 3:
+			// strings whose encoding straddles the 30/32 byte limits with multi-byte runes at the cut
+			var sb strings.Builder
+			n := 18 + g.r.Intn(22)
+			for sb.Len() < n {
+				if g.r.Chance(2, 3) {
+					sb.WriteByte(byte('a' + g.r.Intn(26)))
+				} else {
+					sb.WriteString(pieces[g.r.Intn(len(pieces))])
+				}
+			}
+			emitVal(sb.String())
+		case 4:
+			var sb strings.Builder
+			for n := g.r.Intn(12); n > 0; n-- {
+				sb.WriteByte(byte(g.r.Intn(256)))
+			}
+			emitVal(sb.String())
+		case 5:
+			emitVal(g.value(3))
+		case 6:
+			// numbers of every representation with long encodings
+			switch g.r.Intn(4) {
+			case 0:
+				emitVal(math.Float64frombits(g.r.Next()))
+			case 1:
+				emitVal(new(big.Int).Lsh(big.NewInt(int64(g.r.Intn(1000))+1), uint(60+g.r.Intn(80))))
+			case 2:
+				emitVal(json.Number(strings.Repeat("1234567890", 1+g.r.Intn(4)) + "." + strings.Repeat("5", g.r.Intn(5)+1)))
+			default:
+				emitVal(math.Ldexp(float64(g.r.Intn(1000)+1), -g.r.Intn(1100)))
+			}
+		default:
+			emitVal(g.shaped())
+		}
+	}
+}
